@@ -87,7 +87,10 @@ type Input struct {
 	Via     string      `json:"via,omitempty"`
 	Strings []string    `json:"strings"` // the case's crontab strings
 	Hooks   [][]Binding `json:"hooks"`
-	Ops     []Op        `json:"ops"`
+	// V0 (operator class): the hooks that answer --config in the v0 format (no configVersion;
+	// name, crontab, allowFailure only) - ignored for a hook with a binding that needs v1
+	V0  []int `json:"v0,omitempty"`
+	Ops []Op  `json:"ops"`
 }
 
 // TaskObs: a task returned by the operator's schedule event handler
@@ -142,6 +145,9 @@ type Observation struct {
 	Steps   []Obs    `json:"steps"`
 	Extra   []string `json:"extra"`         // strings seen in the implementation that are not in Input.Strings
 	Invalid []int    `json:"invalid"`       // indices (alphabet) of the strings the real cron.Parse rejects
+	// Loaded (operator class): per hook and binding the REAL id the config loader produced, as the
+	// number of the first (hook, binding) carrying that id string (operator.go: modelID)
+	Loaded [][]int `json:"loaded,omitempty"`
 	Err     string   `json:"err,omitempty"` // operator class: the rig could not be built (counts as a crash)
 }
 
@@ -260,6 +266,8 @@ type rig struct {
 	idStr    func(i int) string             // the id string of the model's id i
 	idNum    func(s string) int
 	queueNum func(s string) int
+	bindNum  func(s string) int // the number of a binding name
+	loaded   [][]int            // operator class: see Observation.Loaded
 	cleanup  func()
 }
 
@@ -274,7 +282,9 @@ func Run(in Input) Observation {
 		if err != nil {
 			return Observation{Steps: []Obs{}, Extra: []string{}, Invalid: []int{}, Err: err.Error()}
 		}
-		return r.run(in)
+		out := r.run(in)
+		out.Loaded = r.loaded
+		return out
 	}
 	return ctlRig(in).run(in)
 }
@@ -322,6 +332,7 @@ func ctlRig(in Input) *rig {
 			return n
 		},
 		queueNum: func(s string) int { return unname("q", s) },
+		bindNum:  func(s string) int { return unname("b", s) },
 	}
 }
 
@@ -337,12 +348,12 @@ func (r *rig) run(in Input) Observation {
 	infosOf := func(infos []controller.BindingExecutionInfo) []InfoObs {
 		res := []InfoObs{}
 		for _, info := range infos {
-			io := InfoObs{Name: unname("b", info.Binding), Group: unname("g", info.Group), AF: info.AllowFailure,
+			io := InfoObs{Name: r.bindNum(info.Binding), Group: unname("g", info.Group), AF: info.AllowFailure,
 				Snaps: unnames("s", info.IncludeSnapshots), Queue: r.queueNum(info.QueueName),
 				BcName: anomaly, BcSnaps: []int{}}
 			if len(info.BindingContext) == 1 && !info.IncludeAllSnapshots {
 				bc := info.BindingContext[0]
-				io.BcName = unname("b", bc.Binding)
+				io.BcName = r.bindNum(bc.Binding)
 				io.BcSchedule = bc.Metadata.BindingType == htypes.Schedule
 				io.BcSnaps = unnames("s", bc.Metadata.IncludeSnapshots)
 				io.BcGroup = unname("g", bc.Metadata.Group)
@@ -737,12 +748,21 @@ func Render(in Input, obs *Observation, crash string) core.Case {
 		if obs != nil && obs.Err != "" && crash == "" {
 			crash = "rig: " + obs.Err
 		}
-		c.Coq = fmt.Sprintf("(COp (%s\n (%s,\n  %s)))", lets.String(), coqInput(in, alphabet, invalid), core.CoqList(steps, coqHobs))
+		var loaded [][]int
+		if obs != nil {
+			loaded = obs.Loaded
+		}
+		c.Coq = fmt.Sprintf("(COp (%s\n (%s,\n  (%s,\n  %s))))", lets.String(), coqInput(in, alphabet, invalid),
+			core.CoqList(loaded, func(l []int) string { return core.CoqList(l, core.CoqN) }), core.CoqList(steps, coqHobs))
 	} else {
 		c.Coq = fmt.Sprintf("(CCtl (%s\n (%s,\n  %s)))", lets.String(), coqInput(in, alphabet, invalid), core.CoqList(steps, coqObs))
 	}
-	c.JSON = map[string]any{"steps": steps, "alphabet": alphabet, "invalid": invalid, "crash": crash}
-	c.Key = fmt.Sprintf("%s %q %s", in.Via, in.Strings, coqInput(in, in.Strings, nil))
+	js := map[string]any{"steps": steps, "alphabet": alphabet, "invalid": invalid, "crash": crash}
+	if in.Via == "operator" && obs != nil {
+		js["loaded_ids"] = obs.Loaded
+	}
+	c.JSON = js
+	c.Key = fmt.Sprintf("%s%v %q %s", in.Via, in.V0, in.Strings, coqInput(in, in.Strings, nil))
 
 	// which strings does the case use, and how are they spelled
 	used := map[int]bool{}
@@ -1341,13 +1361,19 @@ func Gen(r *core.Rng, tier string) ([]core.In[Input], bool) {
 		ins = append(ins, core.In[Input]{Input: gop.operatorCase(maxLen), Stream: "operator"})
 	}
 	if tier == "thorough" {
-		for _, in := range exhaustiveOperator(5) {
+		for _, in := range exhaustiveOperator(5, false) {
 			ins = append(ins, core.In[Input]{Input: in, Stream: "exhaustive-operator"})
+		}
+		for _, in := range exhaustiveOperator(5, true) {
+			ins = append(ins, core.In[Input]{Input: in, Stream: "exhaustive-operator-same-names"})
 		}
 	}
 	if tier == "search" {
-		for _, in := range exhaustiveOperator(4) {
+		for _, in := range exhaustiveOperator(4, false) {
 			ins = append(ins, core.In[Input]{Input: in, Stream: "exhaustive-operator"})
+		}
+		for _, in := range exhaustiveOperator(4, true) {
+			ins = append(ins, core.In[Input]{Input: in, Stream: "exhaustive-operator-same-names"})
 		}
 	}
 	if tier == "thorough" {
@@ -1410,15 +1436,17 @@ var Driver = core.Driver[Input, Observation]{
 			"after each operation: Entries, the cron entries registered and the string each sends when its job is run (strings not in the table are appended to it); the scheduler is never started; " +
 			"streams: corpus, random (length <=20, quick; 8% Start, 6% Drain, 1% Stop), coinciding (every fifth case: hooks enabled, 1-3 rounds of Start of >=2 jobs / operations meanwhile in 35% / Drain, TickAll, Tick or nothing; tags concurrent:*, stop:*), malformed (1-2 unparsable strings, some unparsable only because of whitespace such as '@hourly '; binding ids shared with the direct calls or duplicated), " +
 			"exhaustive (thorough: every sequence of <=5 operations over 10 operations on 2 spellings of one schedule x 2 ids and one hook); " +
-			"operator (case class COp, tags class:operator, operator:*): the REAL operator assembled around a fake cluster - 2-4 hook files (1-2 schedule bindings each, 65% of the bindings on one of two shared strings, now and then a hook without schedule bindings) loaded by the real hook.Manager.Init, " +
+			"operator (case class COp, tags class:operator, operator:*): the REAL operator assembled around a fake cluster - 2-4 hook files (1-3 schedule bindings each, 65% of the bindings on one of two shared strings, now and then a hook without schedule bindings; " +
+			"60% of the binding names from the pool {unnamed (= \"schedule\" once loaded), b101, b102}, in 40% of the hooks with >=2 bindings all bindings are namesakes (mostly on different crontabs) with independent queue / allowFailure / group / includeSnapshotsFrom: hooks share names, positions and crontabs; 25% of the hooks have plain bindings and 60% of those answer --config in the v0 format) loaded by the real hook.Manager.Init; " +
+			"the ids are the REAL ones the config loader produced (never replaced before they reach the schedule manager): their strings are numbered by first carrier, reported per (hook, binding) and compared with the model's one id per (hook, binding); the predicate P_op also demands, id-free, one cron entry per parsable crontab iff some ENABLED (hook, binding) has it or an id added by hand is still registered; " +
 			"Enable h = the EnableScheduleBindings task the real bootstrapMainQueue queued for hook h handled by the operator's real task handler, Disable h = HookController.DisableScheduleBindings, every string received from the schedule channel or handed over (Fire) given to the schedule event handler the operator registered (operator.go:163-191 -> hook.Manager.HandleScheduleEvent), the returned TASKS observed; " +
 			"histories: the hooks enabled in queue order with firings (Tick / TickAll / Fire) in between with probability 55% each, then disable / enable / raw Add, Remove (also of a binding's own pair) / Start+Drain / firings; " +
-			"exhaustive-operator (thorough: every sequence of <=5 operations over Enable 0,1,2 / Disable 0,1 / Tick 0 / TickAll on three hooks, two of them sharing a crontab, the second sharing its other crontab with the third); " +
+			"exhaustive-operator (thorough: every sequence of <=5 operations over Enable 0,1,2 / Disable 0,1 / Tick 0 / TickAll on three hooks, two of them sharing a crontab, the second sharing its other crontab with the third), exhaustive-operator-same-names (the same with every binding unnamed: same name, same position, same crontab in hooks 0 and 1; namesakes with different settings in hook 1); " +
 			"non-trivial = >=3 operations of >=2 kinds with a cron entry registered at some point; distinct = distinct input text"},
 	Gen: Gen, Run: Run, Render: Render, PerShard: 200, Workers: 8, CaseTimout: 10 * time.Second,
 	Extra: func() map[string]any {
 		return map[string]any{
-			"exhaustive_scope": "thorough: sum_{k=1..5} 10^k = 111110 operation sequences (controllers), sum_{k=1..5} 7^k = 19607 (operator)",
+			"exhaustive_scope": "thorough: sum_{k=1..5} 10^k = 111110 operation sequences (controllers), 2 x sum_{k=1..5} 7^k = 2 x 19607 (operator: distinct names / all bindings unnamed)",
 			"not_driven":       "the cron library's clock and its `go e.Job.Run()` (entries are fired by running their real job closure directly, alone or several together in goroutines started by the harness), the events handler's receive loop (the harness is the consumer of Ch()), class CCtl replays hook.Manager.HandleScheduleEvent's loop on the real controllers; class COp (operator) calls the schedule event handler the operator registered with its ManagerEventsHandler (read by reflection: unexported field scheduleCb), which runs the real hook.Manager.HandleScheduleEvent and the task construction of operator.go:163-191; the queues the tasks would be appended to are not driven (the queue name carried by each task is compared)",
 		}
 	},
